@@ -187,6 +187,7 @@ int main(int argc, char **argv)
 {
     int i, cfg = 0, thorough = 0, nshards = 16; const char *replay = NULL, *prop = NULL; double t0 = now();
     setvbuf(stdout, NULL, _IOFBF, 1 << 16);
+    shim_watchdog_start();
     for (i = 1; i < argc; i++) {
         if (!strcmp(argv[i], "--prop") && i + 1 < argc) prop = argv[++i];
         else if (!strcmp(argv[i], "--config") && i + 1 < argc) cfg = atoi(argv[++i]);
